@@ -343,17 +343,7 @@ func (p *Prog) verifyFunc(fn *ssa.Function) (u *Unit) {
 		if u.fc.Opts["propagate-errors"] != "" && len(rets) > 0 && rets[len(rets)-1].Sort == "Iface" {
 			out := rets[len(rets)-1]
 			for _, er := range s2.errs {
-				cond := "true"
-				for _, c := range u.fc.Clauses {
-					if c.Kind == "tolerates" && (c.Callee == er.name || c.Callee == strings.SplitN(er.name, "#", 2)[0]) {
-						env.names["_err"] = er.term
-						g, err := env.formula(c.Expr)
-						if err != nil {
-							panic(abortUnit{fmt.Sprintf("%s:%d: %v", c.File, c.Line, err)})
-						}
-						cond = tand(cond, "(not "+g+")")
-					}
-				}
+				cond := "(not " + er.tol + ")"
 				goal := fmt.Sprintf("(=> (and (not (= (itype %s) 0)) %s) (not (= (itype %s) 0)))", er.term.S, cond, out.S)
 				saved := s2.pc
 				s2.pc = append([]string{}, saved...)
